@@ -766,6 +766,18 @@ func (p c16) Run(par *fw.Parent) *fw.Result {
 // blockedInLibrary returns the first goroutine of a dump that is blocked on a
 // channel / select / semaphore with a library frame on its stack.
 func blockedInLibrary(dump string) string {
+	// a starved but healthy process still has goroutines that want to run
+	for _, g := range strings.Split(dump, "\n\n") {
+		if strings.HasPrefix(g, "goroutine ") && !strings.HasPrefix(g, "goroutine 0 ") {
+			head := g
+			if i := strings.IndexByte(g, '\n'); i >= 0 {
+				head = g[:i]
+			}
+			if strings.Contains(head, "[running") || strings.Contains(head, "[runnable") {
+				return ""
+			}
+		}
+	}
 	for _, g := range strings.Split(dump, "\n\n") {
 		if !strings.HasPrefix(g, "goroutine ") {
 			continue
